@@ -14,7 +14,7 @@ import (
 // from a comparator; O3: node arrays are sorted with a stable sort.
 
 func init() {
-	register("C15", "Decides structural necessary conditions of 'sort/min/max/< agree on one total preorder, stable, never panicking': (O1) in every function reachable from a sort.Interface Less method or from the COMPARE/MIN/MAX handlers, and in every module function, no ordering decision is derived from the sign of an integer difference (overflow breaks antisymmetry); (O2) no explicit panic is reachable from those comparator roots; (O3) every sort of non-basic elements uses a stable algorithm (sort.Stable / sort.SliceStable / slices.SortStableFunc); (O4) the sorted result is rebuilt from every element of the sorted array (the adding loop has no element-dependent filter). Does NOT decide transitivity across tag classes nor agreement of the two hand-written comparators.", runC15)
+	register("C15", "Decides structural necessary conditions of 'sort/min/max/< agree on one total preorder, stable, never panicking': (O1) in every function reachable from a sort.Interface Less method or from the COMPARE/MIN/MAX handlers, and in every module function, no ordering decision is derived from the sign of an integer difference (overflow breaks antisymmetry); (O2) no explicit panic is reachable from those comparator roots; (O3) every sort of non-basic elements uses a stable algorithm (sort.Stable / sort.SliceStable / slices.SortStableFunc); (O4) the sorted result is rebuilt from every element of the sorted array (the adding loop has no element-dependent filter). (O10) the glob matcher `==` uses on strings is unreachable from the functions that order two given nodes. Does NOT decide transitivity across tag classes nor agreement of the two hand-written comparators.", runC15)
 }
 
 // comparatorRoots: Less methods of module types implementing sort.Interface
